@@ -81,6 +81,9 @@ type op struct {
 	Text string   `json:"text,omitempty"`
 	Fmts []fmtRef `json:"fmts,omitempty"`
 	Tok  int      `json:"tok,omitempty"`
+	// wrunes: b.WriteRune(r) for each r, including values that are not Unicode scalar values
+	// (lone surrogates, > U+10FFFF, negative); Text holds what Go stores for them (U+FFFD each).
+	Runes []int32 `json:"runes,omitempty"`
 }
 
 type program struct {
@@ -106,6 +109,8 @@ func (p *program) describe() map[string]any {
 			ops[i] = fmt.Sprintf("t%d.Apply(b, %s)", o.Tok, strings.Join(names, ", "))
 		case "format", "named":
 			ops[i] = fmt.Sprintf("%s(%+q, %s)", o.Kind, o.Text, strings.Join(names, ", "))
+		case "wrunes":
+			ops[i] = fmt.Sprintf("WriteRune each of %x (stored as %+q)", o.Runes, o.Text)
 		default:
 			ops[i] = fmt.Sprintf("%s(%+q)", o.Kind, o.Text)
 		}
@@ -137,6 +142,10 @@ func genFmts(r *rand.Rand, noCode bool) []fmtRef {
 	return out
 }
 
+// runes for the wrunes operation: valid BMP and astral, U+FFFD itself, lone surrogates, beyond U+10FFFF, negative
+var oddRunes = []int32{'a', ' ', '\n', 0x436, 0xFFFF, 0xFFFD, 0xD7FF, 0xE000, 0x10000, 0x1F600, 0x10FFFF,
+	0xD800, 0xDBFF, 0xDC00, 0xDFFF, 0x110000, 0x7FFFFFFF, -1, -0x80000000}
+
 func genProgram(r *rand.Rand) *program {
 	p := &program{Final: "complete"}
 	p.Styling = r.IntN(10) < 3
@@ -159,6 +168,20 @@ func genProgram(r *rand.Rand) *program {
 			t, c := genPiece(r, wsTail)
 			p.cls |= c
 			p.Ops = append(p.Ops, op{Kind: "plain", Text: t})
+		case x < 7 && r.IntN(5) == 0:
+			// WriteRune with arbitrary rune values: Go stores U+FFFD (one UTF-16 unit) for every value
+			// that is not a Unicode scalar value
+			n := 1 + r.IntN(4)
+			o := op{Kind: "wrunes"}
+			var sb strings.Builder
+			for i := 0; i < n; i++ {
+				v := oddRunes[r.IntN(len(oddRunes))]
+				o.Runes = append(o.Runes, v)
+				sb.WriteString(string(rune(v))) // Go semantics: invalid rune -> "\uFFFD"
+			}
+			o.Text = sb.String()
+			p.cls |= clsOddRune
+			p.Ops = append(p.Ops, o)
 		case x < 7:
 			t, c := genPiece(r, wsTail)
 			p.cls |= c
@@ -225,6 +248,10 @@ func execOp(b *entity.Builder, o op, toks map[int]entity.Token) {
 	case "bytes":
 		for i := 0; i < len(o.Text); i++ {
 			_ = b.WriteByte(o.Text[i])
+		}
+	case "wrunes":
+		for _, r := range o.Runes {
+			_, _ = b.WriteRune(rune(r))
 		}
 	case "format":
 		fs := make([]entity.Formatter, len(o.Fmts))
@@ -332,7 +359,7 @@ func buildModel(p *program) *model {
 	group := 0
 	for _, o := range p.Ops {
 		switch o.Kind {
-		case "plain", "write", "writeb", "runes", "bytes":
+		case "plain", "write", "writeb", "runes", "bytes", "wrunes":
 			sb.WriteString(o.Text)
 			m.len16 += u16len(o.Text)
 		case "format", "named":
@@ -557,7 +584,7 @@ func c35Case(c *mon.Ctx, i int, k *collector, check func(p *program, m *model, m
 func runC35(c *mon.Ctx) {
 	c.Rule("random programs of 1..12 operations (+ closing applies) on the real entity.Builder, 30% driven through styling.Perform: Plain, WriteString/Write/WriteRune/WriteByte, " +
 		"Format with 0..3 of all 24 formatters, the named helpers (b.Bold ...), Token/Apply nesting up to depth 4 (LIFO like the HTML parser, sometimes overlapping or applied twice), " +
-		"optional ShrinkPreCode (as html/markdown do), then Complete (90%) or Raw; 10% run a second message on the same Builder. Pieces are whole-rune valid UTF-8 from pools: ASCII, BMP (incl. U+FFFF, U+FFFD, U+D7FF, U+E000), " +
+		"WriteRune with arbitrary rune values incl. lone surrogates, > U+10FFFF and negative (Go stores U+FFFD, one unit), optional ShrinkPreCode (as html/markdown do), then Complete (90%) or Raw; 10% run a second message on the same Builder. Pieces are whole-rune valid UTF-8 from pools: ASCII, BMP (incl. U+FFFF, U+FFFD, U+D7FF, U+E000), " +
 		"astral (U+10000, U+10FFFF, emoji, flags, ZWJ sequences), combining sequences, all 25 White_Space code points, white-space look-alikes (U+200B, U+FEFF ...), empty; last pieces end in white space 55% of the time. " +
 		"Oracle: harness-side record of every piece + own UTF-16 counter; every returned entity must match an intended range (start exact, length exact unless the piece reaches the message's trailing white space, never past the returned text). " +
 		"distinct non-trivial = distinct (builder fresh/reused, via styling, shrink, final call, nesting depth, text-class mask, trimmed?, #entities) among programs that asked for ≥1 entity")
